@@ -41,6 +41,9 @@ THEOREMS = [
     "AiuVerif.C04.only_tid_changes",
     "AiuVerif.C04.lanes_not_merged",
     "AiuVerif.C04.drop_sublist",
+    "AiuVerif.C04.laminar_raw",
+    "AiuVerif.C04.no_assert",
+    "AiuVerif.C04.drop_total",
 ]
 RULE = ("interval families as X events (plus counter events) on (pid,tid) lanes: exhaustive over one lane with "
         "endpoints in {0..4} (all ordered families of <=3 slices, all multisets of 4; zero-length and "
